@@ -181,6 +181,15 @@ def rule_content_types(chk, fb):
         ok = want != "unknown" and got is not None and got == set(want) if isinstance(want, set) else False
         chk.ob(ra, "part:%s" % t, ok, where=where, detail="part %s gets %s via %s; standard: %s" % (t, sorted(got) if got else None, how, sorted(want) if isinstance(want, set) else want))
     chk.ob(ra, "fallback", fallback, where=fb.loc(d), detail="parts carried over from the source file keep their recorded content type (backup table consulted): %s" % fallback)
+    # the prefixes are not wider than the kind they stand for: neighbours of another kind are left to the recorded type
+    for name, want in sorted(OPC.CARRIED.items()):
+        got = None
+        hit = None
+        for prefix, types, ln in rules:
+            if ("/" + name).startswith(prefix):
+                got, hit = set(types), prefix
+        ok = got is None or (want is not None and got == {want})
+        chk.ob(ra, "carried:%s" % name, ok, where=fb.loc(d), detail="a carried-over part %s %s" % (name, "matches no override prefix (keeps its recorded / default type)" if got is None else "is caught by prefix %r and declared %s; its own type is %s" % (hit, sorted(got), want)))
 
 
 def rule_targets(chk, fb):
@@ -689,7 +698,7 @@ def rule_quote_inverse(chk, fb, rid="C02.j.inv"):
 
     r = chk.rule(
         rid,
-        "apostrophe doubling has an inverse: where a defined name's address text is turned into an Address, the text first passes through replace(\"''\", \"'\") (the writer's replace(\"'\", \"''\") being present)",
+        "apostrophe doubling has an inverse: every struct that renders its addresses with doubled apostrophes (defined names today) halves them again - replace(\"''\", \"'\") - wherever it turns an address text into an Address",
         floor=1,
     )
     writer_doubles = False
@@ -699,9 +708,21 @@ def rule_quote_inverse(chk, fb, rid="C02.j.inv"):
             for _, t in fl.calls(lambda t: t.get("fn", "").endswith("str>::replace")):
                 if len(t["args"]) == 3 and t["args"][1].get("s") == "'" and ("const", "''") in fl.atoms(t["args"][2]):
                     writer_doubles = True
+    # which structs render addresses with doubling? those whose methods call the doubling form of the address getter
+    doublers = set()
+    dbl_fns = set()
+    for d, b in fb.mir.items():
+        if b.get("self_ty", "").endswith("::Address"):
+            fl = Flow(fb, b)
+            for _, t in fl.calls(lambda t: t.get("fn", "").endswith("Address::get_address_crate")):
+                if len(t["args"]) > 1 and t["args"][1].get("i", t["args"][1].get("c")) in (1, True, "true"):
+                    dbl_fns.add(d)
+    for d, b in fb.mir.items():
+        if any(t.get("fn") in dbl_fns for _, t in fb.calls_in(b)) and b.get("self_ty") and not b["self_ty"].endswith("::Address"):
+            doublers.add(b["self_ty"])
     n = 0
     for d, b in sorted(fb.mir.items()):
-        if not b.get("self_ty", "").endswith("::DefinedName"):
+        if b.get("self_ty") not in doublers:
             continue
         fl = Flow(fb, b)
         for bi, t in fl.calls(lambda t: t.get("fn", "").endswith("Address::set_address")):
